@@ -370,9 +370,12 @@ def plan_C10(tier, seed):
     # For / ForType on every type universe of MC_Infer (incl. recursive and unsupported types, all ForOptions)
     inf = [tlc("c10_infer_%s" % f, "MC_Infer", {"Family": q(f), "K": 1 if q_ else 2, "CheckKnown": "FALSE", "LegacyNull": "FALSE"},
                ["Emit"], workers=4) for f in ("T", "S", "X", "O")]
+    # ApplyDefaults on every schema x instance of MC_Defaults (null members, null defaults, non-objects at any position)
+    dfl = tlc("c10_defaults", "MC_Defaults", {"K": 2, "DEV_EmptyContainerDefault": "FALSE"}, ["Emit"], workers=4)
     return dict(
-        tlc=jobs + [rep] + inf, parallel=4,
+        tlc=jobs + [rep] + inf + [dfl], parallel=4,
         replay=[dict(name="c10_total", family="total", inputs=[j["name"] for j in jobs[:5]]),
+                dict(name="c10_defaults", family="defaults", inputs=[dfl["name"]], kinds=["panic", "hang"]),
                 dict(name="c10_resolver", family="eval", inputs=[j["name"] for j in jobs[5:]]),
                 dict(name="c10_reps", family="repval", inputs=[rep["name"]]),
                 dict(name="c10_infer", family="infer", inputs=[j["name"] for j in inf], codegen=True, kinds=["panic", "hang"])],
@@ -389,7 +392,8 @@ def plan_C10(tier, seed):
              "prediction, every Resolve and Validate must return), the invalid JSON-Pointer fragments of MC_Pointer P2 (signs, '-', indexes at and beyond the machine "
              "word, absent keywords) and represented instances (RV); For/ForType (twice, then Resolve) on every type of the MC_Infer "
              "families T, S, X and O (unsupported kinds plain and nested, with and without IgnoreInvalidTypes, described fields, "
-             "self-recursive types through pointers/slices/maps/nested structs, TypeSchemas overrides). Non-trivial = every malformed case; distinct by case text",
+             "self-recursive types through pointers/slices/maps/nested structs, TypeSchemas overrides); ApplyDefaults and Resolve(ValidateDefaults) "
+             "on the MC_Defaults universe (null members, null defaults, non-objects at any position, Loader documents). Non-trivial = every malformed case; distinct by case text",
         exhaustive=True, assumptions=["TLC", "Go runtime recover() / deadline as the observation of panics and hangs"])
 
 
